@@ -1,1 +1,2 @@
 pub mod brokersim;
+pub mod codec;
